@@ -120,12 +120,18 @@ fn main() {
                 return;
             }
         };
-        let alpha = if cv.name.contains(':') { conv::hyphen_alphabet() } else { conv::alphabet(&cv.spec) };
+        let nested = cv.name.starts_with("nested:");
+        let alpha = if nested { conv::nested_alphabet() } else if cv.name.contains(':') { conv::hyphen_alphabet() } else { conv::alphabet(&cv.spec) };
         let mut h = Hist::new();
         let mut argv: Vec<Vec<u8>> = vec![];
         let mut idx = 0u64;
         for_each_seq(alpha.len(), *l, |s| {
             argv.clear();
+            if nested {
+                // the two steps down are fixed; the enumerated tokens are read two levels below the root
+                argv.push(b"sub".to_vec());
+                argv.push(b"deep".to_vec());
+            }
             argv.extend(s.iter().map(|i| alpha[*i].clone()));
             h.evaluations += 1;
             h.states += 1;
